@@ -21,8 +21,9 @@ def log(*a):
 class Check:
     """One run of one property's check: collects coverage numbers, violations, known findings."""
 
-    def __init__(self, pid, tier=None, seed=None):
+    def __init__(self, pid, tier=None, seed=None, replay_mode=False):
         self.pid = pid
+        self.replay_mode = replay_mode
         self.tier = tier or os.environ.get("VERIF_TIER") or "quick"
         if self.tier not in ("quick", "thorough"):
             self.tier = "quick"
@@ -35,6 +36,10 @@ class Check:
         shutil.rmtree(self.work, ignore_errors=True)
         os.makedirs(self.work, exist_ok=True)
         self.replays = os.path.join(VERIF, "replays", pid)
+        if replay_mode:
+            # re-running one recorded case: the recorded replay files stay where they are (the case being replayed is one of them);
+            # what this run reports goes to a directory of its own, and the evidence file of the last full run is left alone
+            self.replays = os.path.join(self.replays, "replayed")
         shutil.rmtree(self.replays, ignore_errors=True)
         os.makedirs(self.replays, exist_ok=True)
         self.cov = {"states": 0, "transitions": 0, "traces_validated_against_impl": 0, "samples": [],
@@ -94,8 +99,9 @@ class Check:
               "wall_s": round(time.time() - self.t0, 2), "violations": len(self.violations),
               "known_findings": self.known}
         os.makedirs(os.path.join(VERIF, "evidence"), exist_ok=True)
-        with open(os.path.join(VERIF, "evidence", self.pid + ".json"), "w") as f:
-            json.dump(ev, f, indent=1)
+        if not self.replay_mode:
+            with open(os.path.join(VERIF, "evidence", self.pid + ".json"), "w") as f:
+                json.dump(ev, f, indent=1)
         shutil.rmtree(self.work, ignore_errors=True)
         log("%s: %s tier, %.1fs, %d violation(s), %d known finding(s)" % (self.pid, self.tier, ev["wall_s"], len(self.violations), len(self.known)))
         sys.exit(1 if self.violations else 0)
@@ -311,7 +317,7 @@ def validate_traces(chk, trace_file, curve, flags=None, jobs=12, max_rejects=5, 
             bad = ch[run_i]
             rejects.append({"run": bad, "event_index_in_run": idx - k, "event": bad[idx - k - 1],
                             "reason": ("invariant " + r["error"]) if inv else "no action of the specification explains this event",
-                            "flags": flags, "curve": curve})
+                            "flags": flags, "curve": curve, "cfg": cfgname})
             accepted += run_i          # runs before it were consumed
             rest = ch[run_i + 1:]
             if rest:
@@ -428,13 +434,53 @@ def report_replay(chk, rows, what):
     return n
 
 
-def report_rejects(chk, rejects, what):
+def report_rejects(chk, rejects, what, progs=None):
+    byid = {p.get("id"): p for p in (progs or [])}
     for j, rj in enumerate(rejects):
         rid = rj["run"][0].get("id", "run")
+        if rid in byid:
+            rj = dict(rj, program=byid[rid])
         chk.violation("%s-%s-%s" % (what, rj["curve"], rid),
-                      {"curve": rj["curve"], "flags": rj["flags"], "reason": rj["reason"],
-                       "event_index_in_run": rj["event_index_in_run"], "event": rj["event"], "trace": rj["run"]},
+                      {"curve": rj["curve"], "flags": rj["flags"], "cfg": rj.get("cfg", "Trace"), "reason": rj["reason"],
+                       "event_index_in_run": rj["event_index_in_run"], "event": rj["event"], "trace": rj["run"],
+                       **({"program": rj["program"]} if "program" in rj else {})},
                       "%s: event %d (%s) of run %s: %s" % (rj["curve"], rj["event_index_in_run"], rj["event"].get("ev"), rid, rj["reason"]))
+
+
+def replay_generic(chk, case, what="replay"):
+    """Re-run a recorded violation that carries a trace (re-validated against the specification under the recorded flags and cfg) or a
+    batch job. Returns True when the case was of one of these kinds."""
+    if "trace" in case and isinstance(case["trace"], list):
+        tp = chk.path("replay.ndjson")
+        curve = case.get("curve", "toy31723")
+        if "program" in case and curve in TOY_CURVES:
+            # run the recorded program again on the current tree and validate the fresh trace
+            tp, _ = record(chk, curve, [case["program"]], "replay")
+        else:
+            write_ndjson(tp, case["trace"])
+        cfgcurve = curve if curve in TOY_CURVES else "tables"
+        acc, rej = validate_traces(chk, tp, cfgcurve, flags=case.get("flags"), cfgname=case.get("cfg", "Trace"))
+        for rj in rej:
+            rj["curve"] = curve
+        report_rejects(chk, rej, what)
+        return True
+    if "job" in case and isinstance(case["job"], dict) and "members" in case["job"]:
+        jp, op = chk.path("rj.in"), chk.path("rj.out")
+        write_ndjson(jp, [case["job"]])
+        harness("batch", "--curve", case["curve"], "--jobs", jp, "--out", op)
+        for row in read_ndjson(op):
+            exp = case["job"].get("expect", "")
+            bad = list(row["bad"])
+            if exp == "reject" and row["batch"] == "ok":
+                bad.append("batch accepted")
+            if exp in ("ok", "InvalidGeneratorsLength") and row["batch"] != exp:
+                bad.append("batch returned %s, expected %s" % (row["batch"], exp))
+            if row["batch"].startswith("panic"):
+                bad.append(row["batch"])
+            if bad:
+                chk.violation("%s-batch" % what, dict(case, batch=row["batch"], bad=bad), "; ".join(bad))
+        return True
+    return False
 
 
 def toy_traces(chk, curve, kind, n, flags, what, cfgname="Trace", name=None, progs=None, seed_off=0):
@@ -444,7 +490,7 @@ def toy_traces(chk, curve, kind, n, flags, what, cfgname="Trace", name=None, pro
         progs = genprogs(chk, chk.seed + seed_off, n, TOY_P[curve], kind, name)
     tp, sums = record(chk, curve, progs, name)
     acc, rej = validate_traces(chk, tp, curve, flags=flags, cfgname=cfgname)
-    report_rejects(chk, rej, what)
+    report_rejects(chk, rej, what, progs=progs)
     for p, s_ in zip(progs, sums):
         chk.count_case([curve, p["p"], p.get("v"), p.get("tamper")], nontrivial=len(p["p"]["ops"]) > 0)
     if progs:
@@ -460,7 +506,7 @@ def session_traces(chk, curve, n, fl, what, seed_off=0):
     progs = genprogs(chk, chk.seed + seed_off, n, TOY_P[curve], "session", name)
     tp, sums = record(chk, curve, progs, name)
     acc, rej = validate_traces(chk, tp, curve, flags=fl)
-    report_rejects(chk, rej, what)
+    report_rejects(chk, rej, what, progs=progs)
     for p in progs:
         chk.count_case([curve, p["p"].get("gh"), p["v"].get("gh"), p.get("btamper"), p.get("tamper"), p["p"]["ops"]])
     chk.sample({"curve": curve, "session": {"prover_table": progs[0]["p"].get("gh"), "verifier_table": progs[0]["v"].get("gh"),
